@@ -151,6 +151,8 @@ func dsaKey(name string, p, q, g, y, x *big.Int) *pkey {
 //	nm-e:<rsa>     near miss: same modulus, public exponent e+2 (verification only)
 //	nm-negy:<ec>   near miss: the point (x, p-y), also on the curve (verification only)
 //	nm-y:<dsa>     near miss: same (p,q,g), y' = y*g mod p (verification only)
+//	rsadet<bits>   two-prime RSA key, e = 65537, modulus of exactly <bits> bits, found by a
+//	               deterministic prime search from fx.NewRand (detkey.go)
 func loadKey(name string) *pkey {
 	switch {
 	case strings.HasSuffix(name, "aug") && name[0] == 'p':
@@ -179,6 +181,8 @@ func loadKey(name string) *pkey {
 		return dsaKey(name, hexInt(c[0]), hexInt(c[1]), hexInt(c[2]), hexInt(c[3]), hexInt(c[4]))
 	}
 	switch {
+	case strings.HasPrefix(name, "rsadet"):
+		return detKeyRSA(name)
 	case len(name) >= 3 && name[:3] == "rsa":
 		z := fx.ZRSA(name)
 		k := &pkey{name: name, fam: famRSA, bits: z.N.BitLen(), zpub: &z.PublicKey}
